@@ -1509,6 +1509,11 @@ impl Model {
                 Record::new("C09", "closed-after-solicited-ack", format!("connection of '{}' was closed right after a batch of acknowledgements the broker itself had solicited, in order", c.client))
                     .fact("session_resumed", resumed),
             );
+            if resumed {
+                // ... and through C08: a resumed session that is thrown out for acknowledging what it was sent cannot
+                // be delivered what it is owed
+                out.push(Record::new("C08", "resumed-session-closed-after-solicited-ack", format!("the resumed session of '{}' was closed right after acknowledging, in order, what the broker had sent it", c.client)));
+            }
         }
         self.close(conn, "closed by broker without cause", false);
         out
